@@ -231,7 +231,9 @@ def evaluate(case) -> Result:
                 if dprs:
                     res.v("C18/force/dpr-sent", f"forced stop sent a DPR to conn {i}")
             elif ready_at_stop[i]:
-                if len(dprs) != 1:
+                if wait == 0 and not dprs:
+                    res.classes.append("dpr-overtaken-by-expired-timeout")      # queued, but the timeout had run out already
+                elif len(dprs) != 1:
                     res.v("C18/dpr/missing" if not dprs else "C18/dpr/repeated", f"conn {i} ({st_name}) got {len(dprs)} DPRs")
                 else:
                     cause = dprs[0].avp(W.DISC_CAUSE)
@@ -256,7 +258,7 @@ def evaluate(case) -> Result:
             if force:
                 continue
             if i in t_dpa:
-                if c.remote.closed_at < t_dpa[i]:
+                if c.remote.closed_at < t_dpa[i] and tc < wait:
                     res.v("C18/closed-before-dpa", f"conn {i} closed at +{tc:g}s, its DPA/close came at +{t_dpa[i] - t_stop:g}s")
                 elif c.remote.closed_at > t_dpa[i] + wake + 1:
                     res.v("C18/not-closed-after-dpa", f"conn {i}: DPA at +{t_dpa[i] - t_stop:g}s, closed only at +{tc:g}s")
@@ -285,7 +287,7 @@ def evaluate(case) -> Result:
             res.v(f"C18/thread-died/{sig}", d)
         res.nontrivial = (any(not r for r in ready_at_stop) or bool(newcomers) or
                           any(cs.get("reaction") != "prompt" for cs in case["conns"]))
-        res.classes += [f"listeners:{1 + case.get('extra_listen', 0)}", f"nconns:{len(conns)}", f"force:{force}", f"newcomers:{min(len(newcomers), 2)}",
+        res.classes += [f"listeners:{1 + case.get('extra_listen', 0)}", f"nconns:{len(conns)}", f"force:{force}", f"wait:{'zero' if wait == 0 else 'positive'}", f"newcomers:{min(len(newcomers), 2)}",
                         f"app:{case.get('app_kind', 'basic')}", f"reconnect-inside:{bool(case.get('reconnect_inside'))}"]
         for cs in case["conns"]:
             res.classes += [f"state:{cs['state']}", f"reaction:{cs.get('reaction')}"]
@@ -608,6 +610,9 @@ def shard_main(shard, nshards, tier, scale):
                              "wakeup": 2, "newcomers": [], "seed": seed, "yield_all": ya})
     jobs.append({"conns": [], "force": False, "wait": 3, "wakeup": 2, "newcomers": [[0, True]]})
     jobs.append({"conns": [], "force": True, "wait": 3, "wakeup": 1, "newcomers": []})
+    for react in ("never", "late", "prompt"):
+        for wait_ in (0, 1):
+            jobs.append({"conns": [{"state": "ready", "reaction": react, "delay": 3}], "force": False, "wait": wait_, "wakeup": 1, "newcomers": []})
     for stt in ("awaiting-cea", "awaiting-cer"):
         for k_ in (0, 1, 2):
             jobs.append({"conns": [{"state": stt, "reaction": "never", "late_handshake": k_}, {"state": "ready", "reaction": "never"}],
@@ -630,7 +635,7 @@ def shard_main(shard, nshards, tier, scale):
                                                      "delay": st.integers(1, 6), "same_host": st.sampled_from([False, False, True]),
                                                      "late_handshake": st.sampled_from([None, None, 0, 1, 3])}),
                               min_size=0, max_size=3))
-        return {"conns": conns, "force": draw(st.sampled_from([False, False, True])), "wait": draw(st.integers(2, 9)),
+        return {"conns": conns, "force": draw(st.sampled_from([False, False, True])), "wait": draw(st.one_of(st.integers(2, 9), st.integers(0, 2))),
                 "wakeup": draw(st.integers(1, 3)),
                 "newcomers": [list(x) for x in draw(st.lists(st.tuples(st.integers(0, 6), st.booleans()), max_size=2))],
                 "reconnect_inside": draw(st.booleans()), "reconnect_wait": draw(st.integers(1, 6)),
@@ -652,7 +657,7 @@ def run(tier, scale=1.0):
     rec = Recorder(PID)
     for d in hyp.pool_run(shard_main, (tier, scale)):
         rec.merge(d)
-    required = {"exploration:dpa-vs-writer": 1, "exploration:stop-vs-garbage": 1, "exploration:two-stops": 1, "exploration:stop-vs-watchdog": 1} | {f"state:{s}": 1 for s in set(STATES)} | {f"reaction:{r}": 1 for r in REACTIONS} | \
+    required = {"wait:zero": 1, "exploration:dpa-vs-writer": 1, "exploration:stop-vs-garbage": 1, "exploration:two-stops": 1, "exploration:stop-vs-watchdog": 1} | {f"state:{s}": 1 for s in set(STATES)} | {f"reaction:{r}": 1 for r in REACTIONS} | \
                {"schedule-exploration": 1, "handshake-completes-while-stopping": 1, "listeners:2": 1, "listeners:4": 1, "simultaneous-dpas": 1, "second-connection-of-a-peer": 1, "force:True": 1, "newcomers:2": 1, "nconns:3": 1, "reconnect-inside:True": 1, "app:threading": 1}
     return finish(rec, tier=tier, level="exploration", rule=RULE, assumptions=ASSUME, t0=t0,
                   required_classes=required)
